@@ -272,6 +272,7 @@ theorem countOk_apply {h : Handler} (hc : CountOk h) (o : Op)
     have h2 := hc.count
     simp only [Map.set, this, List.length_cons]
     omega
+  | openFail id peer => exact hc
   | data id p s =>
     simp only [Handler.apply, Handler.data]
     split
@@ -321,7 +322,16 @@ theorem C17_refuted_relay_orphan :
     t'.byUp = [] ∧ t'.byDown.get 1 = some ⟨1, 1, 4, 1⟩ := by
   decide
 
-example : okRun {} [.opened 1 1, .opened 3 2, .close 1 1, .dstEof (Conn.mk' 3 2 1)] := by
-  simp [okRun, Handler.apply, Handler.opened, Handler.closeConn, Handler.remove, Map.get, Map.set, Map.del]
+/-- Refused opens never consume a connection slot. -/
+theorem C17_failed_open_keeps_count (h : Handler) (id peer : Nat) :
+    (h.openFail id peer).1.count = h.count ∧ (h.openFail id peer).1.conns = h.conns := ⟨rfl, rfl⟩
+
+/-- At the limit an open is refused and changes nothing; below it, it is accepted. -/
+theorem C17_limit (h : Handler) (id peer : Nat) (hm : h.max > 0) (hfull : h.count ≥ (h.max : Int)) :
+    (h.tryOpen id peer) = (h, [.err peer id]) := by
+  simp [Handler.tryOpen, Handler.openFail, hm, hfull]
+
+example : okRun {} [.opened 1 1, .openFail 1 2, .opened 3 2, .close 1 1, .dstEof (Conn.mk' 3 2 1)] := by
+  simp [okRun, Handler.apply, Handler.opened, Handler.openFail, Handler.closeConn, Handler.remove, Map.get, Map.set, Map.del]
 
 end MM.C17
